@@ -369,6 +369,7 @@ package libmem
 
 //@ func (*Allocator).realloc ints=bv64
 //@   requires idle(a) && req != nil && req.id in a.requests && a.requests[req.id] == req && req.id in a.users
+//@   ensures[C04,C07] retErr == nil ==> !(req.id in updates)
 //@   ensures[C07] retErr == nil ==> forall id string :: id != req.id && old(id in a.users) && a.users[id] != old(a.users[id]) ==> id in a.requests && a.requests[id].priority <= Preserved
 //@   ensures[C06] awf(a) && rwf(a) && a.journal == nil && nocustom(a) && a.masks == old(a.masks)
 //@   ensures[C06] retErr != nil ==> dom(a.users) == old(dom(a.users)) && vals(a.users) == old(vals(a.users)) && a.version == old(a.version)
@@ -380,6 +381,10 @@ package libmem
 
 //@ func (*Allocator).Realloc ints=bv64
 //@   requires idle(a)
+//@   ensures[C04,C07] result2 == nil ==> !(id in result1)
+//@   # C04: the returned zone is the request's assignment now, and the update map is exactly the other changed assignments
+//@   ensures[C04] result2 == nil ==> id in a.users && a.users[id] == result0
+//@   ensures[C04] result2 == nil ==> forall k string :: k != id ==> (k in result1) == (old(k in a.users) && a.users[k] != old(a.users[k])) && (k in result1 ==> result1[k] == a.users[k])
 //@   ensures[C07] result2 == nil ==> forall k string :: k != id && old(k in a.users) && a.users[k] != old(a.users[k]) ==> k in a.requests && a.requests[k].priority <= Preserved
 //@   ensures[C06] awf(a) && rwf(a) && a.journal == nil && assigned(a)
 //@   ensures[C06] result2 != nil ==> dom(a.users) == old(dom(a.users)) && vals(a.users) == old(vals(a.users))
